@@ -111,7 +111,7 @@ Record sancase := mkSan {
   sTm : tmap; sSc : sschema;
   sInput : list ssel;                         (* operation.SelectionSet as parsed and validated *)
   sObsSel : list ssel;                        (* what sanitizeSelectionSet returned ... *)
-  sObsScrub : scrub                           (* ... and the helper fields it registered for removal *)
+  sObsScrub : list (string * string * string) (* ... and the helper fields it registered for removal: joined path, type, field *)
 }.
 Fixpoint ssel_eqb (a b : ssel) {struct a} : bool :=
   match a, b with
@@ -131,8 +131,11 @@ Fixpoint ssel_eqb (a b : ssel) {struct a} : bool :=
   end.
 Fixpoint ssels_eqb (a b : list ssel) : bool :=
   match a, b with [], [] => true | x :: r, y :: r' => ssel_eqb x y && ssels_eqb r r' | _, _ => false end.
-Definition scrub_eq (m o : scrub) : bool :=
-  forallb (fun e => existsb (entry_eqb e) o) m && forallb (fun e => existsb (entry_eqb e) m) o.
+Definition keyed_eqb (a b : string * string * string) : bool :=
+  (fst (fst a) =? fst (fst b)) && (snd (fst a) =? snd (fst b)) && (snd a =? snd b).
+Definition scrub_eq (m : scrub) (o : list (string * string * string)) : bool :=
+  let mk := map (fun e => (path_key (fst (fst e)), snd (fst e), snd e)) m in
+  forallb (fun e => existsb (keyed_eqb e) o) mk && forallb (fun e => existsb (keyed_eqb e) mk) o.
 Definition san_agrees (c : sancase) : bool :=
   let '(res, scr) := sanitize (sTm c) (sSc c) (sInput c) [] in
   ssels_eqb res (sObsSel c) && scrub_eq scr (sObsScrub c).
